@@ -4,7 +4,7 @@ from ..fdai import EnumV, AggV, K, SymV, RefV, Cell, Loc, TOP, load
 from . import dispatch as D, emit as E
 
 LEVEL = "other"
-TECHNIQUE = "FDAI path enumeration of Node::run_tokens (message_start once; terminator on every successful exit iff the buffer is non-empty), of the Formatter methods as each formatter gets them - its impl's or the trait's provided ones (unit separator iff non-empty, terminator once) - and of ResponseUnit::{header,data} (separator decision table over the four unit states header-written x datum-written, obtained from the library's own header/data calls and described by what the next call writes); emission tables of the list writers (elements joined by one `,`); separator constants vs IEEE 488.2 section 8; who-may-write census for Formatter output methods; error-item emission table (code, quoted text); whole-message tables (sa/rules/msgtable.py): Node::run folded end to end on concrete messages against a concrete tree with the real tokenizer, dispatcher, Parameters, ResponseUnit and formatter impl analysed in place and scripted handlers, compared with a reference execution written from SCPI-99 6.2.4 / IEEE 488.2 7-8 - every sequence of one or two (a sample of three and four) of eleven query / command units, with and without a trailing `;`: the bytes left in the growable buffer"
+TECHNIQUE = "FDAI path enumeration of Node::run_tokens (message_start once; terminator on every successful exit iff the buffer is non-empty), of the Formatter methods as each formatter gets them - its impl's or the trait's provided ones (unit separator iff non-empty, terminator once) - and of ResponseUnit::{header,data} (separator decision table over the four unit states header-written x datum-written, obtained from the library's own header/data calls and described by what the next call writes); emission tables of the list writers (elements joined by one `,`); separator constants vs IEEE 488.2 section 8; who-may-write census for Formatter output methods; error-item emission table (code, quoted text); whole-message tables (sa/rules/msgtable.py): Node::run folded end to end on concrete messages against a concrete tree with the real tokenizer, dispatcher, Parameters, ResponseUnit and formatter impl analysed in place and scripted handlers, compared with a reference execution written from SCPI-99 6.2.4 / IEEE 488.2 7-8 - every sequence of one or two (a sample of three and four) of eleven query / command units, with and without a trailing `;`: the bytes left in the growable buffer; an empty list is refused instead of written as an empty datum (R10.8)"
 LEVEL_TEXT = "Structural decision over all abstract paths: every successful exit of the unit loop is checked to pass through `if !is_empty { message_end }` exactly once, message_start happens once before the first unit, response_unit is opened exactly once per query and never for an event (C02 table), the two formatter impls push `;` iff the buffer is non-empty and NL exactly once, and ResponseUnit's separator table is enumerated over its four flag states. Constants are compared with 488.2 section 8."
 LEVEL_NOTE = "Not decided: what handlers choose to write through ResponseUnit; user Formatter impls. Trusted: rustc MIR, FDAI models."
 
